@@ -63,6 +63,111 @@ def call_chain(expr):
     return names, e
 
 
+_SUBSCRIPTION_API = "notifyOnSystemRegistrationChanges"  # Thespian: Actor.notifyOnSystemRegistrationChanges(enable=True)
+_CHILD_EXIT = "receiveMsg_ChildActorExited"  # Thespian tells the PARENT of an actor that exited
+
+
+def _self_call(c, selfname="self"):
+    return isinstance(c, ast.Call) and isinstance(c.func, ast.Attribute) and isinstance(c.func.value, ast.Name) and c.func.value.id == selfname
+
+
+def _subscription_calls(func):
+    """(call, enable) for every call of the registration-change subscription API in func's own body: enable is the truth value of its (inlined, evaluated) argument,
+    True for the default, None if the argument is not decidable."""
+    from sa import minieval
+    defs = source.local_defs(func)
+    out = []
+    for c in source.calls_in(func, attr=_SUBSCRIPTION_API):
+        a = source.arg_of(c, 0, "enable")
+        if a is None:
+            out.append((c, True if not c.args and not c.keywords else None))
+            continue
+        try:
+            out.append((c, bool(minieval.ev(source.inline_node(a, defs), {}))))
+        except minieval.CannotEval:
+            out.append((c, None))
+    return out
+
+
+def _effect_sites(model, ci, m, direct):
+    """Calls in m's own body that perform an effect: `direct(call, func)` holds, or the call is self.<method>(...) and a direct site is reachable from that method
+    (MRO-resolved self calls and bound-method callbacks)."""
+    out = []
+    for c in source.calls_in(m):
+        if direct(c, m):
+            out.append(c)
+        elif _self_call(c):
+            callee = model.table.method(ci, c.func.attr)
+            if callee is not None and callee is not m and any(direct(x, fn) for _, fn in model.method_closure(ci, callee) for x in source.calls_in(fn)):
+                out.append(c)
+    return out
+
+
+def _predicate_value(model, ci, call, selfname, rec):
+    """Value of `self.<predicate>(<constant>)`: the predicate method's body (a decision ending in returns) is evaluated on the constant argument and the representative object."""
+    from sa import minieval
+    from sa.tables import decide
+    callee = model.table.method(ci, call.func.attr)
+    if callee is None or call.keywords or len(call.args) != len(params_of(callee)) - 1:
+        raise minieval.CannotEval(f"call {u(call)[:60]}")
+    ps = params_of(callee)
+    env = {ps[0]: rec}
+    for p, a in zip(ps[1:], call.args):
+        env[p] = minieval.ev(a, {selfname: rec})
+
+    def atom(n, _e):
+        try:
+            return bool(minieval.ev(n, dict(env)))
+        except minieval.CannotEval:
+            return None
+
+    out = decide(callee.body, atom, {})
+    if out.kind != "return" or out.value is None:
+        raise minieval.CannotEval(f"{callee.name} does not end in a return on this input")
+    return bool(minieval.ev(out.value, dict(env)))
+
+
+def _child_exit_outcome(model, ci, h, status):
+    """What the ChildActorExited handler h of actor ci does when the actor's status is `status`: ('failure' | 'forward' | 'nothing', site, text).
+    The handler body is evaluated as a decision (sa.tables.decide) with status tests decided on the representative status; the effects on the taken path are inspected:
+    a send whose target is an address attribute assigned from a handler's sender (upstream) and whose payload is a BenchmarkFailure (failure) or the received notification (forward).
+    Raises Unsupported / UnknownAtom / CannotEval when the handler is not such a decision."""
+    from sa import minieval
+    from sa.tables import decide
+    ps = params_of(h)
+    if len(ps) < 3:
+        raise minieval.CannotEval(f"{h.name} signature is not (self, msg, sender)")
+    selfname, msgname = ps[0], ps[1]
+    rec = minieval.Record(status=status)
+    upstream = {attr for attr, lst in model.address_attrs(ci).items() if any(kind == "sender" for _, kind, _ in lst)}
+
+    def atom(n, _e):
+        try:
+            if _self_call(n, selfname) and model.table.method(ci, n.func.attr) is not None:
+                return _predicate_value(model, ci, n, selfname, rec)
+            return bool(minieval.ev(n, {selfname: rec}))
+        except minieval.CannotEval:
+            return None
+
+    out = decide(h.body, atom, {})
+    binds = {k: v for k, v in getattr(out, "bindings", {}).items() if v is not None}
+    if out.kind == "raise":
+        return "nothing", out.node, "raises (a guarded handler would report that to the sender of the notification, i.e. to nobody)"
+    best = ("nothing", h, f"no send to an upstream address ({sorted(upstream)}) on the path taken in status [{status}]")
+    for e in out.effects:
+        if not (isinstance(e, ast.Call) and last_attr(e.func) == "send" and _self_call(e, selfname) and len(e.args) >= 2):
+            continue
+        tgt = source.inline_node(e.args[0], binds)
+        pay = source.inline_node(e.args[1], binds)
+        if not (isinstance(tgt, ast.Attribute) and isinstance(tgt.value, ast.Name) and tgt.value.id == selfname and tgt.attr in upstream):
+            continue
+        if isinstance(pay, ast.Call) and last_attr(pay.func) == "BenchmarkFailure":
+            return "failure", e, f"send({u(tgt)}, BenchmarkFailure) in status [{status}]"
+        if isinstance(pay, ast.Name) and pay.id == msgname and best[0] == "nothing":
+            best = ("forward", e, f"forwards the notification to {u(tgt)}")
+    return best
+
+
 def run(chk):
     repo = chk.repo
     model = ActorModel(repo)
@@ -73,7 +178,9 @@ def run(chk):
     chk.explanation = (
         "Decides the structural skeleton of engine start/stop: acknowledgement counting before the transition, who may construct "
         "EngineStarted/EngineStopped, agreement of expected child count and created node actors, the external-cluster bypass, failure reporting "
-        "for StartNodes and daemon departure, and the stop order / once-only typestate."
+        "for StartNodes and daemon departure, and the stop order / once-only typestate; that the dispatcher stays subscribed to registration changes while the hosts start "
+        "their nodes, that the exit of a node mechanic travels up the creation chain to a BenchmarkFailure, and that every launcher's start() stops the nodes already started "
+        "when a later one fails."
     )
     chk.not_decided = "interleavings of remote daemons joining, real process termination, Thespian delivery."
 
@@ -529,6 +636,238 @@ def run(chk):
         ok = head.id not in r
         chk.ob("O12.6", f"{cname}.stop stores system metrics per node", ok, stores[0], "every path of the loop body passes the store call" if ok else "a path through the loop body skips store_system_metrics")
 
+    # ---- O12.4b the dispatcher stays subscribed while the hosts start their nodes (F41) -----------------------------------------------------------
+    chk.rule("O12.4b", "the Dispatcher subscribes to registration changes on every path of StartEngine that does not send the start messages at once, and no activation that sends the "
+             "parked start messages also cancels the subscription (the Dispatcher is never told that start-up has completed: at that point notifications are still needed)", 3,
+             "all daemons have joined, one host is still installing / launching its nodes and its daemon leaves: nobody is notified, race control waits forever")
+    # the attribute(s) in which (node actor, start message) pairs are parked: self.<X>.append(<something built from createActor(...)>)
+    parked = set()
+    for f_ in DI.methods.values():
+        fdefs = _local_defs(f_)
+        for c in source.calls_in(f_, attr="append"):
+            if isinstance(c.func, ast.Attribute) and is_self_attr(c.func.value) and c.args \
+                    and any(isinstance(x, ast.Call) and last_attr(x.func) == "createActor" for x in ast.walk(inline_node(c.args[0], fdefs))):
+                parked.add(c.func.value.attr)
+    if not parked:
+        raise AnchorMissing("Dispatcher: no attribute in which created node actors are parked together with their start message")
+
+    def is_start_send(c, fn):
+        """a send inside a loop over the parked (actor, start message) pairs"""
+        if last_attr(c.func) != "send":
+            return False
+        fdefs = _local_defs(fn)
+        for a in source.ancestors(c):
+            if a is fn:
+                break
+            if isinstance(a, (ast.For, ast.AsyncFor)) and any(is_self_attr(x) and x.attr in parked for x in ast.walk(inline_node(a.iter, fdefs))):
+                return True
+        return False
+
+    def is_cancel(c, fn):
+        return any(c is c2 and en is False for c2, en in _subscription_calls(fn))
+
+    def is_subscribe(c, fn):
+        return any(c is c2 and en is True for c2, en in _subscription_calls(fn))
+
+    for f_ in DI.methods.values():
+        for c, en in _subscription_calls(f_):
+            if en is None:
+                chk.unknown("O12.4b", f"the argument of `{short(c, 60)}` is not a decidable constant (subscribe or cancel?)", c)
+    n_senders = 0
+    for name, f_ in DI.methods.items():
+        s_sites = _effect_sites(model, DI, f_, is_start_send)
+        if not s_sites:
+            continue
+        n_senders += 1
+        c_sites = _effect_sites(model, DI, f_, is_cancel)
+        gf = cfg_of(f_)
+        clash = [(c, s) for c in c_sites for s in s_sites
+                 if c is s or gf.node_of(c) is gf.node_of(s) or gf.path_exists(gf.node_of(c), gf.node_of(s)) or gf.path_exists(gf.node_of(s), gf.node_of(c))]
+        chk.ob("O12.4b", f"Dispatcher.{name}: the start messages go out with the subscription still in place", not clash, clash[0][0] if clash else s_sites[0],
+               f"{len(s_sites)} site(s) sending the parked start messages, {len(c_sites)} cancelling site(s), none on a common path" if not clash else
+               f"`{short(clash[0][0], 70)}` cancels the subscription in the activation that sends the start messages (`{short(clash[0][1], 50)}`): a daemon that leaves while its host "
+               "is still starting nodes is reported to nobody",
+               key=f"{_M}:Dispatcher.{name}:stays-subscribed")
+    if n_senders == 0:
+        raise AnchorMissing("Dispatcher: no method sends the parked start messages (send inside a loop over the parked pairs)")
+    gde = cfg_of(de)
+    sub_or_send = [gde.node_of(c) for c in _effect_sites(model, DI, de, is_subscribe) + _effect_sites(model, DI, de, is_start_send)]
+    ok = bool(sub_or_send) and gde.must_pass(gde.entry, sub_or_send, normal_only=True)
+    chk.ob("O12.4b", "Dispatcher.receiveMsg_StartEngine: subscribes unless the start messages are sent at once", ok, de,
+           "" if ok else "a path parks the start messages without subscribing to registration changes: neither the joining nor the departure of a daemon is ever noticed",
+           key=f"{_M}:Dispatcher.receiveMsg_StartEngine:subscribes")
+
+    # ---- O12.4c the death of a node mechanic reaches race control (F42) -----------------------------------------------------------------------------
+    chk.rule("O12.4c", "every actor class that creates node mechanic actors handles ChildActorExited (Thespian notifies the PARENT) by sending a BenchmarkFailure or by forwarding the "
+             "notification upstream; the actor it is forwarded to (the creator of the forwarding actor) handles it in turn, and in the status in which NodesStarted is awaited the chain "
+             "ends in a BenchmarkFailure", 1,
+             "the process of one host's node mechanic dies while it starts its nodes (OOM kill, SystemExit in an install hook): only logged as unrecognized, race control waits forever")
+    from sa import minieval as _me4c
+    from sa.tables import Unsupported as _Uns4c
+    from sa.sym import UnknownAtom as _UA4c
+    nsh = MA.methods.get("receiveMsg_NodesStarted")
+    await_status = None
+    if nsh is not None:
+        for c in source.calls_in(nsh, attr="transition_when_all_children_responded"):
+            exp = source.bind_args(c, f).get("expected_status")  # f: RallyActor.transition_when_all_children_responded (O12.1)
+            if exp is not None and isinstance(exp, ast.Constant) and isinstance(exp.value, str):
+                await_status = exp.value
+    if await_status is None:
+        raise AnchorMissing("MechanicActor.receiveMsg_NodesStarted: status in which the acknowledgements are awaited (expected_status of the transition)")
+
+    def creators_of(clsname):
+        return [a for a in model.actors if any(isinstance(c, ast.Call) and last_attr(c.func) == "createActor" and c.args and last_attr(c.args[0]) == clsname
+                                               for m_ in a.methods.values() for c in walk_body(m_))]
+
+    work = [(a, f"creates {NM.name}") for a in creators_of(NM.name)]
+    if not work:
+        raise AnchorMissing(f"no actor class creates {NM.name}")
+    seen4c = set()
+    while work:
+        a, why = work.pop(0)
+        if a.name in seen4c:
+            continue
+        seen4c.add(a.name)
+        h = model.table.method(a, _CHILD_EXIT)
+        key4c = f"{a.module.relpath}:{a.name}.{_CHILD_EXIT}:reports"
+        inst = f"{a.name} ({why}): an exited child is reported"
+        if h is None:
+            chk.ob("O12.4c", inst, False, a.node, f"{a.name} has no {_CHILD_EXIT}: the exit of a child lands in receiveUnrecognizedMessage (logged only); the mechanic keeps waiting for "
+                   "the missing NodesStarted", key=key4c)
+            continue
+        try:
+            kind, site, text = _child_exit_outcome(model, a, h, await_status)
+        except (_Uns4c, _UA4c, _me4c.CannotEval) as e:
+            chk.unknown("O12.4c", f"{a.name}.{_CHILD_EXIT} is not a decision over the actor's status ending in sends: {e}", h)
+            continue
+        chk.ob("O12.4c", inst, kind in ("failure", "forward"), site, text, key=key4c)
+        if kind == "forward":
+            ups = creators_of(a.name)
+            if not ups:
+                chk.unknown("O12.4c", f"{a.name} forwards the notification but no actor class creates {a.name}", h)
+            work += [(p, f"creates {a.name}, which forwards the exit of its children") for p in ups]
+
+    # ---- O12.7 launcher start() is all-or-nothing per host (F43) ---------------------------------------------------------------------------------------------
+    chk.rule("O12.7", "in every launcher's start(): an exception raised while the node configurations are being started reaches self.stop(<nodes started so far>, ...) before it "
+             "leaves start(), and it does leave start() as an exception (sibling agreement of all launchers; the mechanic records the nodes only if ALL of them started)", 4,
+             "several nodes per host, the second one fails to start: the failure is reported but the first node is never stopped (tear-down stops an empty list and wipes its installation)")
+    se_m = mech.methods(M).get("start_engine")
+    if se_m is None:
+        raise AnchorMissing("Mechanic.start_engine")
+    start_names = {n.value.func.attr for n in walk_body(se_m) if isinstance(n, ast.Assign) and any(is_self_attr(t, "nodes") for t in n.targets)
+                   and isinstance(n.value, ast.Call) and isinstance(n.value.func, ast.Attribute) and "launcher" in u(n.value.func.value)}
+    stop_names = {c.func.attr for c in stop_c if isinstance(c.func, ast.Attribute)}
+    if len(start_names) != 1 or len(stop_names) != 1:
+        raise AnchorMissing(f"Mechanic.start_engine / stop_engine: launcher start/stop call (start={sorted(start_names)} stop={sorted(stop_names)})")
+    start_name, stop_name = next(iter(start_names)), next(iter(stop_names))
+    launchers = [c for c in lau.classes() if start_name in lau.methods(c) and stop_name in lau.methods(c)]
+    if len(launchers) < 2:
+        raise AnchorMissing(f"{_L}: expected at least two launcher classes with {start_name}() and {stop_name}(), found {[c.name for c in launchers]}")
+    for c in launchers:
+        sf = lau.methods(c)[start_name]
+        stopf = lau.methods(c)[stop_name]
+        ps_ = params_of(sf)
+        if len(ps_) < 2 or len(params_of(stopf)) < 2:
+            raise AnchorMissing(f"{c.name}.{start_name}/{stop_name}: signature")
+        cfgs, stop_kw = ps_[1], params_of(stopf)[1]
+        ldefs = {k: v for k, v in _local_defs(sf).items()}
+        gl = cfg_of(sf)
+        key7 = f"{_L}:{c.name}.{start_name}"
+
+        def over_configs(it, ldefs=ldefs, cfgs=cfgs):
+            return any(isinstance(x, ast.Name) and x.id == cfgs for x in ast.walk(inline_node(it, ldefs)))
+
+        loops7 = [n for n in walk_body(sf) if isinstance(n, (ast.For, ast.While)) and (over_configs(n.iter) if isinstance(n, ast.For) else over_configs(n.test))]
+        comps = [n for n in walk_body(sf) if isinstance(n, (ast.ListComp, ast.GeneratorExp, ast.SetComp, ast.DictComp)) and any(over_configs(g_.iter) for g_ in n.generators)
+                 and any(isinstance(x, ast.Call) for x in ast.walk(n.elt if not isinstance(n, ast.DictComp) else n.value))]
+        if not loops7 and not comps:
+            chk.unknown("O12.7", f"{c.name}.{start_name} does not iterate over its configurations in a recognised form (for loop / comprehension over `{cfgs}`)", sf)
+            continue
+        # the nodes started so far: locals that grow inside the loop
+        acc = set()
+        for lp in loops7:
+            for n in ast.walk(lp):
+                if isinstance(n, ast.Call) and last_attr(n.func) in ("append", "extend", "add", "insert") and isinstance(n.func, ast.Attribute) and isinstance(n.func.value, ast.Name):
+                    acc.add(n.func.value.id)
+                elif isinstance(n, ast.AugAssign) and isinstance(n.op, ast.Add) and isinstance(n.target, ast.Name):
+                    acc.add(n.target.id)
+        stops7 = []
+        for x in source.calls_in(sf, attr=stop_name):
+            if not _self_call(x):
+                continue
+            a0 = source.arg_of(x, 0, stop_kw)
+            if a0 is not None and any(isinstance(y, ast.Name) and y.id in acc for y in ast.walk(inline_node(a0, {k: v for k, v in ldefs.items() if k not in acc}))):
+                stops7.append(x)
+        stop_nodes = [n_ for x in stops7 for n_ in gl.nodes_of(x)]
+        starting = []
+        for lp in loops7:
+            for st in lp.body:
+                for n in ast.walk(st):
+                    if isinstance(n, ast.stmt):
+                        starting += [x for x in gl.nodes_of(n)]
+        for cp in comps:
+            starting += gl.nodes_of(cp)
+        live = gl.live_nodes()
+        starting = [n_ for n_ in starting if n_.id in live]
+        # The representative failure: an exception in a LATER iteration. The list of started nodes is then non-empty and a completion flag (a local that only ever holds
+        # constants) has the value it was given before the loop. Tests in the clean-up code over these locals alone are decided on that situation: only the edge taken is followed
+        # (`if nodes:` may skip the stop for an empty list; `if not complete:` in a finally never skips it for a failure inside the loop).
+        flags = {}
+        heads = [gl.node_of(lp) for lp in loops7] + [gl.node_of(cp) for cp in comps]
+        consts = {}
+        for n in walk_body(sf):
+            if isinstance(n, ast.Assign) and len(n.targets) == 1 and isinstance(n.targets[0], ast.Name):
+                consts.setdefault(n.targets[0].id, []).append(n)
+        for nm, asg in consts.items():
+            if nm in acc or not all(isinstance(a_.value, ast.Constant) for a_ in asg):
+                continue
+            before = {a_.value.value for a_ in asg if any(gl.path_exists(gl.node_of(a_), h_) for h_ in heads)}
+            if len(before) == 1:
+                flags[nm] = next(iter(before))
+        env7 = dict(flags)
+        env7.update({a_: ["a started node"] for a_ in acc})
+        infeasible = []
+        for n in walk_body(sf):
+            if not isinstance(n, ast.If):
+                continue
+            names = {x.id for x in ast.walk(n.test) if isinstance(x, ast.Name)}
+            if not names or not names <= set(env7) | {"len", "bool"} or not names & set(env7):
+                continue
+            try:
+                taken = "true" if _me4c.ev(n.test, dict(env7)) else "false"
+            except _me4c.CannotEval:
+                continue
+            for tn in gl.nodes_of(n):
+                # the test was evaluated on the representative values: it takes this edge (and does not raise)
+                infeasible += [(tn.id, y, l_) for (y, l_) in gl.succ[tn.id] if l_ != taken]
+        leaks = []
+        for n_ in starting:
+            for y, l_ in gl.succ[n_.id]:
+                if gl.normal_edge(n_.id, y, l_):
+                    continue
+                if y == gl.raise_exit.id or not gl.must_pass(gl.nodes[y], stop_nodes, exits=[gl.raise_exit], avoid_edges=infeasible):
+                    leaks.append(n_)
+                    break
+        ok = bool(starting) and not leaks
+        if comps and not loops7:
+            why7 = f"`{short(comps[0], 60)}` starts the nodes inside a comprehension: when a later node fails the ones already started are dropped with the unfinished list"
+        elif not stops7:
+            why7 = f"no call self.{stop_name}(<nodes started so far>, ...) in {start_name}(): the exception of a later node leaves with the earlier nodes still running and unknown to the caller"
+        else:
+            why7 = (f"an exception raised at line {getattr(leaks[0].ast, 'lineno', '?')} can leave {start_name}() without passing self.{stop_name}({', '.join(sorted(acc))}, ...)"
+                    " (handler too narrow / stop not on every exceptional path)") if leaks else ""
+        chk.ob("O12.7", f"{c.name}.{start_name}: a failure while starting the nodes stops the ones already started before it propagates", ok,
+               (leaks[0].ast if leaks and leaks[0].ast is not None else sf), why7 if not ok else f"{len(starting)} statement(s) in the start loop, every exceptional exit passes "
+               f"self.{stop_name}({', '.join(sorted(acc))}, ...)", key=f"{key7}:stops-started-nodes")
+        # ... and the failure still propagates: a handler around the start loop never completes normally (a partial node list would be taken for 'all started')
+        start_stmts = list(loops7) + [source.enclosing_stmt(cp) for cp in comps]
+        handlers = [h_ for t_ in walk_body(sf) if isinstance(t_, ast.Try) and any(x is s_ for b_ in t_.body for x in ast.walk(b_) for s_ in start_stmts) for h_ in t_.handlers]
+        swallow = [h_ for h_ in handlers if any(gl.exit.id in gl.reachable([hn]) for hn in gl.nodes_of(h_))]
+        chk.ob("O12.7", f"{c.name}.{start_name}: a start failure is not swallowed (no normal return from a handler around the start loop)", not swallow, swallow[0] if swallow else sf,
+               f"{len(handlers)} handler(s) around the start loop, each one ends in a raise" if not swallow else
+               "this handler can complete normally: start() returns a partial node list, the mechanic takes it for 'all nodes started' and NodesStarted is sent",
+               key=f"{key7}:failure-propagates")
+
 
 from sa.selftest import V  # noqa: E402
 
@@ -559,6 +898,59 @@ VARIANTS = [
       "                # store system metrics\n                if metrics_store:\n                    node.telemetry.store_system_metrics(node, metrics_store)", "O12.6"),
     V("create() for external returns", "break", _M, '        raise exceptions.RallyAssertionError("Externally provisioned clusters should not need to be managed by Rally\'s mechanic")',
       "        s = lambda: None\n        p = []\n        l = launcher.ProcessLauncher(cfg)", "O12.2"),
+    # F41 (865b774): the dispatcher stays subscribed while the hosts start their nodes
+    V("F41: subscription cancelled once the last remote has joined", "break", _M,
+      "                # stay subscribed: a remote node that leaves while its host is still starting nodes needs to be reported as well\n",
+      "                self.notifyOnSystemRegistrationChanges(False)\n", "O12.4b"),
+    V("F41: subscription cancelled by the routine that sends the start messages", "break", _M, "            self.send(*each)\n        self.pending = []\n",
+      "            self.send(*each)\n        self.pending = []\n        self.notifyOnSystemRegistrationChanges(enable=False)\n", "O12.4b"),
+    V("F41: start messages parked for remotes without subscribing", "break", _M, "            self.notifyOnSystemRegistrationChanges(True)\n        else:\n            self.send_all_pending()",
+      "            self.logger.info('waiting for remotes')\n        else:\n            self.send_all_pending()", "O12.4b"),
+    V("F41: start messages sent inline once the last remote has joined", "keep", _M, "                self.send_all_pending()\n\n    def send_all_pending(self):",
+      "                for parked in self.pending:\n                    self.send(*parked)\n                self.pending = []\n\n    def send_all_pending(self):"),
+    V("F41: idempotent re-subscription before the start messages go out", "keep", _M,
+      "                # stay subscribed: a remote node that leaves while its host is still starting nodes needs to be reported as well\n",
+      "                still_needed = True\n                self.notifyOnSystemRegistrationChanges(still_needed)\n"),
+    # F42 (468edd0): the death of a node mechanic reaches race control
+    V("F42: dispatcher without a ChildActorExited handler", "break", _M,
+      "    def receiveMsg_ChildActorExited(self, msg, sender):\n        # the node mechanics are our children: let the actor that knows the engine's status decide whether this is a failure\n"
+      "        self.send(self.start_sender, msg)\n\n", "", "O12.4c"),
+    V("F42: dispatcher only logs the exit of a node mechanic", "break", _M, "decide whether this is a failure\n        self.send(self.start_sender, msg)",
+      "decide whether this is a failure\n        self.logger.info('child exited: %s', msg)", "O12.4c"),
+    V("F42: mechanic ignores child exits while starting", "break", _M, 'if self.is_current_status_expected(["cluster_stopping", "cluster_stopped"]):',
+      'if self.is_current_status_expected(["starting", "cluster_stopping", "cluster_stopped"]):', "O12.4c"),
+    V("F42: forwarding handler with other parameter names and a local for the target", "keep", _M,
+      "    def receiveMsg_ChildActorExited(self, msg, sender):\n        # the node mechanics are our children: let the actor that knows the engine's status decide whether this is a failure\n"
+      "        self.send(self.start_sender, msg)\n",
+      "    def receiveMsg_ChildActorExited(self, notification, origin):\n        upstream = self.start_sender\n        self.send(upstream, notification)\n"),
+    V("F42: stopping statuses tested by membership", "keep", _M, 'if self.is_current_status_expected(["cluster_stopping", "cluster_stopped"]):',
+      'if self.status in ("cluster_stopping", "cluster_stopped"):'),
+    # F43 (69fbba0): launcher start() is all-or-nothing per host
+    V("F43: ProcessLauncher starts the nodes in a comprehension again", "break", _L,
+      "        nodes = []\n        try:\n            for node_configuration in node_configurations:\n                nodes.append(self._start_node(node_configuration, node_count_on_host))\n"
+      "        except BaseException:\n            # all or nothing: the caller only learns about the nodes if all of them have started, so stop the ones that already run\n"
+      "            self.stop(nodes, None)\n            raise\n        return nodes\n",
+      "        return [self._start_node(node_configuration, node_count_on_host) for node_configuration in node_configurations]\n", "O12.7"),
+    V("F43: DockerLauncher does not stop the nodes already started", "break", _L,
+      "                nodes.append(node)\n        except BaseException:\n            # all or nothing: the caller only learns about the nodes if all of them have started, so stop the ones that already run\n"
+      "            self.stop(nodes, None)\n            raise\n", "                nodes.append(node)\n        except BaseException:\n            raise\n", "O12.7"),
+    V("F43: ProcessLauncher stops an empty list instead of the started nodes", "break", _L,
+      "node_count_on_host))\n        except BaseException:\n            # all or nothing: the caller only learns about the nodes if all of them have started, so stop the ones that already run\n"
+      "            self.stop(nodes, None)\n", "node_count_on_host))\n        except BaseException:\n            self.stop([], None)\n", "O12.7"),
+    V("F43: ProcessLauncher swallows the start failure after the clean-up", "break", _L,
+      "node_count_on_host))\n        except BaseException:\n            # all or nothing: the caller only learns about the nodes if all of them have started, so stop the ones that already run\n"
+      "            self.stop(nodes, None)\n            raise\n", "node_count_on_host))\n        except BaseException:\n            self.stop(nodes, None)\n", "O12.7"),
+    V("F43: clean-up in try/finally with a completion flag, skipped for an empty list", "keep", _L,
+      "        nodes = []\n        try:\n            for node_configuration in node_configurations:\n                nodes.append(self._start_node(node_configuration, node_count_on_host))\n"
+      "        except BaseException:\n            # all or nothing: the caller only learns about the nodes if all of them have started, so stop the ones that already run\n"
+      "            self.stop(nodes, None)\n            raise\n        return nodes\n",
+      "        started = []\n        complete = False\n        try:\n            for node_configuration in node_configurations:\n"
+      "                started.append(self._start_node(node_configuration, node_count_on_host))\n            complete = True\n        finally:\n"
+      "            if not complete and len(started) > 0:\n                self.stop(started, None)\n        return started\n"),
+    V("F43: bare except and keyword argument for the started nodes", "keep", _L,
+      "                nodes.append(node)\n        except BaseException:\n            # all or nothing: the caller only learns about the nodes if all of them have started, so stop the ones that already run\n"
+      "            self.stop(nodes, None)\n            raise\n",
+      "                nodes.append(node)\n        except:  # noqa\n            so_far = nodes\n            self.stop(metrics_store=None, nodes=so_far)\n            raise\n"),
     # preserving
     V("helper local for node map", "keep", _M, "            self.children = [None] * len(nodes_by_host(to_ip_port(hosts)))", "            node_map = nodes_by_host(to_ip_port(hosts))\n            self.children = [None] * len(node_map)"),
     V(">= on the acknowledgement count", "keep", _A, "            if response_count == expected_count:", "            if response_count >= expected_count:"),
